@@ -211,6 +211,15 @@ def _build(c, rng):
         X = [(da.isel(lat=i % 3, drop=True) * (i + 1) + i).assign_attrs(ATTRS[c["attrs"]]) for i in range(11)]
     elif st == "multiindex":
         X = da.stack(space=("lat", "lon")).assign_attrs(ATTRS[c["attrs"]])
+    elif st == "multiindex-aux":
+        # a feature MultiIndex that carries a further, non-level coordinate along the stacked dimension
+        X = da.stack(space=("lat", "lon"))
+        X = X.assign_coords(basin=("space", np.arange(X.sizes["space"]) % 3)).assign_attrs(ATTRS[c["attrs"]])
+    elif st == "coord-attrs":
+        # one feature dimension whose coordinate carries list / bool / None valued attributes (as CF metadata does)
+        X = da.isel(lat=0, drop=True)
+        X["lon"].attrs = {"valid_range": [0, 360], "cyclic": True, "bounds": None, "units": "degrees_east"}
+        X["time"].attrs = {"calendar": "none", "axis": "T", "flags": [1, 2]}
     else:
         raise KeyError(st)
     return X, da
@@ -226,6 +235,8 @@ def _close(a, b):
     for d in a.dims:
         if d in a.coords and not np.array_equal(np.asarray(a[d].to_index()), np.asarray(b[d].to_index())):
             return False
+        if d in a.coords and list(a[d].to_index().names) != list(b[d].to_index().names):
+            return False            # index levels (a MultiIndex must come back with its own levels, no more, no fewer)
     return bool(np.allclose(np.asarray(a.values), np.asarray(b.values), rtol=1e-10, atol=1e-12, equal_nan=True))
 
 
@@ -335,6 +346,10 @@ def bounded_cases(tier, seed):
         cases.append(dict(model="EOF", structure="list11", attrs=0, codec=codec, placeholders=False, keep=True))
         for model in ("EOF", "EOFRotator", "MCA"):
             cases.append(dict(model=model, structure="da", attrs=1, codec=codec, coslat=True, placeholders=True, keep=True))
+    for codec in ("identity", "nc", "json"):
+        for st in ("multiindex-aux", "coord-attrs"):
+            for model in ("EOF", "EOFRotator"):
+                cases.append(dict(model=model, structure=st, attrs=1, codec=codec, placeholders=False, after_compute=False, keep=model == "EOF"))
     for i, c in enumerate(cases):
         c["seed"] = int(seed) * 1000 + i
     if tier == "quick":
